@@ -9,6 +9,9 @@ import PyModeS.Generated.Src.bds06
 import Mathlib.Tactic.SplitIfs
 import Mathlib.Tactic.NormNum
 
+-- symbolic execution of long generated `do` blocks: generous but finite budget (proof times are seconds)
+set_option maxHeartbeats 1000000
+
 set_option linter.unusedSimpArgs false
 set_option linter.unusedTactic false
 set_option linter.unreachableTactic false
